@@ -491,7 +491,7 @@ class CoAPHomeKitConnection:
         # as it does an ordered read so we need to convert
         # to a list to preserve the order
         ids = list(characteristics)
-        iids = [int(aid_iid[1]) for aid_iid in characteristics]
+        iids = [int(aid_iid[1]) for aid_iid in ids]
         data = [b""] * len(iids)
         pdu_results = await self.enc_ctx.post_all(OpCode.CHAR_READ, iids, data)
         return self._read_characteristics_exit(ids, pdu_results)
